@@ -49,7 +49,9 @@ func c16Sets() []*sgen.Schema {
 			{Kind: sgen.KEnum, Name: "Color", Values: []*sgen.EnumVal{{Name: "RED"}, {Name: "GREEN", Dirs: []sgen.DirUse{{Name: "tag", Args: []sgen.KV{{Name: "n", Value: 9}}}}}}},
 			{Kind: sgen.KDirective, Name: "tag", Locations: []string{"OBJECT", "FIELD_DEFINITION", "ENUM_VALUE"},
 				Args: []*sgen.Arg{{Name: "names", Type: L(N("String")), HasDef: true, Default: []interface{}{"x"}}, {Name: "n", Type: N("Int"), HasDef: true, Default: 3}}},
-			{Kind: sgen.KObject, Name: "T", Dirs: []sgen.DirUse{{Name: "tag"}}, Fields: []*sgen.Field{{Name: "x", Type: N("Int"), Dirs: []sgen.DirUse{{Name: "tag", Args: []sgen.KV{{Name: "n", Value: 1}}}}}}},
+			{Kind: sgen.KObject, Name: "T", Dirs: []sgen.DirUse{{Name: "tag"}}, Fields: []*sgen.Field{{Name: "x", Type: N("Int"), Dirs: []sgen.DirUse{{Name: "tag", Args: []sgen.KV{{Name: "n", Value: 1}}}}},
+				// an explicit null is a value: the argument's default must not replace it, wherever the directive definition arrives
+				{Name: "y", Type: N("Int"), Dirs: []sgen.DirUse{{Name: "tag", Args: []sgen.KV{{Name: "n", Value: nil}, {Name: "names", Value: nil}}}}}}},
 		}},
 		// union members and interfaces listed in an order that differs from the order the types arrive in
 		{Defs: []*sgen.Def{
